@@ -1,10 +1,186 @@
-(** C04 -- session state machine (statements; extended below as proofs land). *)
+(** C04 -- session state machine: fid binding, open state and mode checks.
+    Statements only; proofs in Server/SpecProofs.v (the specification), Server/FaultProofs.v and
+    Server/NameProofs.v (the model), Server/SummaryProofs.v (the source).
+
+    The specification [spec_step] (Server/SessionSpec.v) shares its refusal table ([guards_of],
+    [names_of], [fid1_of], [fid2_of] in Server/Msg.v) with the model, which interprets the same
+    table in [guarded] (Server/Handlers.v); the table is compared with the Go source on every run
+    ([C04_source_matches_model]).  What is proved of model-vs-specification: the refusal classes
+    that need no reference-count reasoning (below, [C04_model_*]).  NOT proved here and therefore
+    named _partial: the full refinement [abs (step s) = spec_step (abs s)] for guard refusals of
+    bound fids and for the success branches -- it needs C05's reference ledger (a bound fid holds a
+    reference, so the deferred DecRef after a refusal cannot reach Close); those branches are
+    covered by the differential (Server/Cases.v [c04_step]) on every run. *)
 From Coq Require Import NArith List String Bool.
 From P9V Require Import Base.Str gen.ConstGen gen.HandlerGen Server.State Server.Msg Server.SessionSpec Server.Handlers
-  Server.Summaries Server.NameProofs Server.SummaryProofs.
+  Server.Summaries Server.NameProofs Server.SummaryProofs Server.SpecProofs Server.FaultProofs.
 Import ListNotations.
 Open Scope N_scope.
 
+(** ---- the specification, read off ---- *)
+Theorem C04_ebadf_unbound : forall a c m k o fence,
+  kind_of m = Some k -> forallb safe_nameb (names_of m) = true -> a_fids a c (fid1_of m) = None ->
+  (forall f, m <> Tremove f) ->
+  spec_step a c m o fence = (a, Some linux_EBADF).
+Proof. intros. apply spec_reject_no_change; auto. eapply spec_unbound; eauto. Qed.
+Print Assumptions C04_ebadf_unbound.
+Theorem C04_ebadf_unbound_second : forall a c m k p f2,
+  kind_of m = Some k -> forallb safe_nameb (names_of m) = true -> a_fids a c (fid1_of m) = Some p ->
+  fid2_of m = Some f2 -> a_fids a c f2 = None -> spec_reject a c m = Some linux_EBADF.
+Proof. exact spec_unbound_second. Qed.
+Theorem C04_refused_changes_nothing : forall a c m e o fence,
+  spec_reject a c m = Some e -> (forall f, m <> Tremove f) -> spec_step a c m o fence = (a, Some e).
+Proof. exact spec_reject_no_change. Qed.
+
+Theorem C04_clunk_always_unbinds : forall a c f p o fence,
+  a_fids a c f = Some p -> a_fids (fst (spec_step a c (Tclunk f) o fence)) c f = None.
+Proof. exact spec_clunk_unbinds. Qed.
+Theorem C04_remove_always_unbinds : forall a c f p o fence,
+  a_fids a c f = Some p -> a_fids (fst (spec_step a c (Tremove f) o fence)) c f = None.
+Proof. exact spec_remove_unbinds. Qed.
+Print Assumptions C04_remove_always_unbinds.
+
+Theorem C04_bind_only_on_success : forall a c m o fence e,
+  binds m = true -> snd (spec_step a c m o fence) = Some e ->
+  fst (spec_step a c m o fence) = a \/ fst (spec_step a c m o fence) = apply_fence fence a.
+Proof. exact spec_bind_only_on_success. Qed.
+Theorem C04_walk_binds_newfid : forall a c f nf n names p k fz sz fence,
+  spec_reject a c (Twalk f nf (n :: names)) = None -> a_fids a c f = Some p ->
+  a_fids (fst (spec_step a c (Twalk f nf (n :: names)) (BOk k fz sz) fence)) c nf =
+    Some (let v := fresh_view k fz false in if fence c nf then fence_view v else v).
+Proof. exact spec_walk_binds. Qed.
+Theorem C04_lcreate_rebinds_open : forall a c u f name flags perm gid k fz sz fence,
+  spec_reject a c (Tlcreate u f name flags perm gid) = None ->
+  exists v, a_fids (fst (spec_step a c (Tlcreate u f name flags perm gid) (BOk k fz sz) fence)) c f = Some v
+            /\ v_opened v = true /\ v_flags v = flags /\ v_mode v = p9_ModeRegular.
+Proof. exact spec_lcreate_rebinds_open. Qed.
+
+(** reads, writes, readdir, fsync: EINVAL unopened, EPERM wrong mode *)
+Theorem C04_io_needs_open : forall a c f p ms,
+  a_fids a c f = Some p -> a_neg a c = Some ms -> v_xop p = p9_xattrNone ->
+  (forall off count, (p9_maximumLength <? count) = false -> v_opened p = false -> spec_reject a c (Tread f off count) = Some linux_EINVAL) /\
+  (forall off count, (p9_maximumLength <? count) = false -> v_opened p = true -> open_mode (v_flags p) = p9_WriteOnly ->
+                     spec_reject a c (Tread f off count) = Some linux_EPERM) /\
+  (forall off len, v_opened p = false -> spec_reject a c (Twrite f off len) = Some linux_EINVAL) /\
+  (forall off len, v_opened p = true -> open_mode (v_flags p) = p9_ReadOnly -> spec_reject a c (Twrite f off len) = Some linux_EPERM) /\
+  (forall off count, v_deleted p = false -> is_dir (v_mode p) = true -> v_opened p = false ->
+                     spec_reject a c (Treaddir f off count) = Some linux_EINVAL) /\
+  (v_opened p = false -> spec_reject a c (Tfsync f) = Some linux_EINVAL).
+Proof.
+  intros a c f p ms Hb Hn Hx. repeat split; intros.
+  - eapply spec_read_unopened; eauto.
+  - eapply spec_read_writeonly; eauto.
+  - eapply spec_write_unopened; eauto.
+  - eapply spec_write_readonly; eauto.
+  - eapply spec_readdir_unopened; eauto.
+  - eapply spec_fsync_unopened; eauto.
+Qed.
+Print Assumptions C04_io_needs_open.
+
+Theorem C04_xattr_subprotocol : forall a c f p,
+  a_fids a c f = Some p ->
+  (forall off len, v_xop p = p9_xattrWalk -> spec_reject a c (Twrite f off len) = Some linux_EINVAL) /\
+  (forall ms off count, a_neg a c = Some ms -> (p9_maximumLength <? count) = false -> v_xop p = p9_xattrCreate ->
+                        spec_reject a c (Tread f off count) = Some linux_EINVAL) /\
+  (forall off len, v_xop p = p9_xattrCreate -> (v_xlen p =? off) = false -> spec_reject a c (Twrite f off len) = Some linux_EINVAL).
+Proof.
+  intros a c f p Hb. repeat split; intros.
+  - eapply spec_xattr_walk_write; eauto.
+  - eapply spec_xattr_create_read; eauto.
+  - eapply spec_xattr_create_offset; eauto.
+Qed.
+
+Theorem C04_open_once : forall a c f p flags,
+  a_fids a c f = Some p -> v_deleted p = false -> v_opened p = true -> spec_reject a c (Tlopen f flags) = Some linux_EINVAL.
+Proof. intros; eapply spec_open_once; eauto. Qed.
+Theorem C04_open_type : forall a c f p flags,
+  a_fids a c f = Some p -> v_deleted p = false -> can_open (v_mode p) = false -> spec_reject a c (Tlopen f flags) = Some linux_EINVAL.
+Proof. intros; eapply spec_open_type; eauto. Qed.
+Theorem C04_dir_readonly : forall a c f p flags,
+  a_fids a c f = Some p -> v_deleted p = false -> v_opened p = false -> is_dir (v_mode p) = true ->
+  (open_mode flags =? p9_ReadOnly) = false -> spec_reject a c (Tlopen f flags) = Some linux_EISDIR.
+Proof. intros; eapply spec_dir_readonly; eauto. Qed.
+
+Theorem C04_opened_dir_refused : forall a c f p,
+  a_fids a c f = Some p -> v_deleted p = false -> is_dir (v_mode p) = true -> v_opened p = true ->
+  (forall names, spec_reject a c (Twalk f f names) = Some linux_EBUSY) /\
+  (forall names, spec_reject a c (Twalkgetattr f f names) = Some linux_EBUSY) /\
+  (forall m, in_dir_op m = true -> fid1_of m = f -> forallb safe_nameb (names_of m) = true -> spec_reject a c m = Some linux_EINVAL) /\
+  (forall t pt name, a_fids a c t = Some pt -> safe_nameb name = true -> spec_reject a c (Tlink f t name) = Some linux_EINVAL) /\
+  (forall nd pt o n, a_fids a c nd = Some pt -> safe_nameb o = true -> safe_nameb n = true ->
+                     v_deleted pt = false -> is_dir (v_mode pt) = true -> spec_reject a c (Trenameat f o nd n) = Some linux_EINVAL).
+Proof.
+  intros a c f p Hb Hd Hdir Ho. repeat split; intros.
+  - eapply spec_walk_in_place; eauto.
+  - eapply spec_walkgetattr_in_place; eauto.
+  - eapply spec_opened_dir_refused; eauto.
+  - eapply spec_opened_dir_link; eauto.
+  - eapply spec_opened_dir_renameat; eauto.
+Qed.
+Print Assumptions C04_opened_dir_refused.
+
+Theorem C04_no_auth : forall a c,
+  (forall afid un an uid, spec_reject a c (Tauth afid un an uid) = Some linux_ENOSYS) /\
+  (forall f afid un an uid, afid <> p9_noFID -> spec_reject a c (Tattach f afid un an uid) = Some linux_EINVAL).
+Proof. intros; split; intros; [apply spec_no_auth|apply spec_attach_authfid; auto]. Qed.
+
+(** ---- the model against the specification: all states, all tapes ---- *)
+
+(** the model's refusals that need no reference counting are exactly the specification's: same
+    state (not just same abstraction), no backend call, tape untouched *)
+Theorem C04_model_ebadf_unbound : forall s c m k tape,
+  kind_of m = Some k -> forallb safe_nameb (names_of m) = true ->
+  tlookup (c, fid1_of m) (st_fids s) = None ->
+  step s c m tape = (s, RErr linux_EBADF, [], tape).
+Proof. exact unbound_ebadf. Qed.
+Print Assumptions C04_model_ebadf_unbound.
+Theorem C04_model_clunk_unbound : forall s c f tape,
+  tlookup (c, f) (st_fids s) = None -> step s c (Tclunk f) tape = (s, RErr linux_EBADF, [], tape).
+Proof. exact clunk_unbound. Qed.
+Theorem C04_model_unsafe_name : forall s c m k tape,
+  kind_of m = Some k -> forallb safe_nameb (names_of m) = false -> step s c m tape = (s, RErr linux_EINVAL, [], tape).
+Proof. exact unsafe_rejected. Qed.
+Theorem C04_model_no_auth : forall s c tape,
+  (forall afid un an uid, step s c (Tauth afid un an uid) tape = (s, RErr linux_ENOSYS, [], tape)) /\
+  (forall f afid un an uid, afid <> p9_noFID -> step s c (Tattach f afid un an uid) tape = (s, RErr linux_EINVAL, [], tape)).
+Proof. intros; split; intros; [apply auth_enosys|apply attach_authfid; auto]. Qed.
+
+(** refinement, the part proved: whenever the specification refuses for an unsafe name, an unbound
+    first fid, Tauth or an auth-fid attach, the model gives that reply class and keeps its state *)
+Theorem C04_refines_partial : forall s c m tape e,
+  spec_reject (abs_state s) c m = Some e ->
+  (match m with Tauth _ _ _ _ | Tother _ => True | Tattach _ afid _ _ _ => afid <> p9_noFID
+              | Tclunk f => True
+              | _ => exists k, kind_of m = Some k /\
+                               (forallb safe_nameb (names_of m) = false \/ tlookup (c, fid1_of m) (st_fids s) = None)
+   end) ->
+  step s c m tape = (s, RErr e, [], tape).
+Proof. exact refines_rejections. Qed.
+Print Assumptions C04_refines_partial.
+
+(** ---- the source ---- *)
 Theorem C04_source_matches_model : handler_traces = model_traces.
 Proof. exact HandlerGen_matches_model. Qed.
 Print Assumptions C04_source_matches_model.
+
+(** a 9-request history reaching every abstract fid state (unbound, directory, file, opened,
+    created-open, xattr walk, xattr create, fenced, clunked) *)
+Example C04_example :
+  let dir := mkV [1] true p9_ModeDirectory 0 [] in
+  let reg := mkV [2] true p9_ModeRegular 0 [] in
+  let ok := AVal v0 [] in
+  let h := [ (0, Tattach 0 p9_noFID "u" "" 0, [ok; AVal dir []]);
+             (0, Twalk 0 1 ["d1"]%string, [AVal dir []]);
+             (0, Twalk 1 2 ["f1"]%string, [AVal reg []]);
+             (0, Tlopen 2 0, [AVal (mkV [2] false 0 4096 []) []]);
+             (0, Txattrwalk 2 3 "user.a", [AVal (mkV [] false 0 5 []) []]);
+             (0, Txattrcreate 2 "user.b" 4 0, []);
+             (0, Tlcreate None 1 "f2" 2 420 0, [AVal (mkV [7] false 0 0 []) []]);
+             (0, Tunlinkat 0 "d1" 0, [ok]);
+             (0, Tclunk 3, []) ] in
+  let s := run init_state h in
+  map (fun f => match tlookup (0, f) (st_fids s) with
+                | Some r => let v := view_of s r in Some (v_opened v, v_deleted v, v_root v, v_xop v)
+                | None => None end) [0; 1; 2; 3; 4]
+  = [Some (false, false, true, 0); Some (true, true, false, 0); Some (true, true, false, 1); None; None].
+Proof. vm_compute. reflexivity. Qed.
